@@ -860,6 +860,14 @@ class _ExecutorManagerThread(threading.Thread):
                 )
                 del work_item
 
+            # The work ids still waiting in the queue refer to the work items
+            # that were just dropped: forget them as well.
+            while True:
+                try:
+                    self.work_ids_queue.get_nowait()
+                except queue.Empty:
+                    break
+
             # Kill the remaining worker forcibly to no waste time joining them
             self.kill_workers(reason="executor shutting down")
 
